@@ -117,6 +117,8 @@ class C15(Property):
   def gen_workload(self, W, index):
     kind = W.weighted("kind", [(1, "mkd"), (1, "sd")])
     n = W.span("len", 1, 40 if W.chance("long", 1, 4) else 12)
+    if W.chance("marathon", 1, 1500):
+      n = W.pick("mlen", [600, 1500])     # whatever builds up per update
     ops = []
     small = W.chance("small-universe", 1, 2)
     wide = False
